@@ -20,7 +20,7 @@ Open Scope Z_scope.
 Section C19.
   Variables F T : Type.
   Variable fv : F -> option xq.
-  Variable cparse : string -> option (cop * xq).
+  Variable cparse : string -> option (js_cop * xq).
   Variable pr : F -> T.
   Variable pa : T -> F.
   Hypothesis RT : forall f, fv f <> None -> pa (pr f) = f.
@@ -96,7 +96,7 @@ Section C19.
      exactly when every declared relation holds of its constraint value (exact arithmetic) *)
   Theorem c19_feasible_iff : forall cs xs v, finite_thresholds cparse cs ->
     js_viol F fv cparse cs xs = Ok v ->
-    fzero v = forallb (fun p => pair_holds F fv cparse (fst p) (snd p)) (combine cs xs).
+    js_fzero v = forallb (fun p => pair_holds F fv cparse (fst p) (snd p)) (combine cs xs).
   Proof. exact (js_feasible_iff F fv cparse). Qed.
 End C19.
 
@@ -114,6 +114,12 @@ Theorem c19_ex_sols_wf : wf_sols Z f64_val 4 2 1 ex_sols = true /\ wf_sols Z f64
 Proof. exact ex_sols_wf. Qed.
 Theorem c19_ex_objs_wf : forallb (wf_objs Z f64_val 2) ex_sols = true.
 Proof. exact ex_objs_wf. Qed.
+
+Theorem c19_ex_feasible_iff :
+  finite_thresholds ex_cparse ["==0"%string; "<=0.5"%string] /\
+  (exists v, js_viol Z f64_val ex_cparse ["==0"%string; "<=0.5"%string] [JNum b_negzero; JNum b_quarter] = Ok v /\ js_fzero v = true) /\
+  (exists v, js_viol Z f64_val ex_cparse ["==0"%string; "<=0.5"%string] [JNum b_negzero; JNum b_3quarter] = Ok v /\ js_fzero v = false).
+Proof. exact ex_feasible_iff. Qed.
 
 (* the theorem distinguishes the repaired defect (fix dc48d2e): the decoder as it was before the repair
    does NOT satisfy the algorithm round trip, on a saved algorithm with a maximised objective and "<=0.5" *)
